@@ -1245,13 +1245,19 @@ class AgProtocol(utils.EventEmitter):
             if trailer == -1:
                 return
 
-            # Isolate the AT response code and parameters.
+            # Isolate the AT response code and parameters, and consume the bytes
+            # (first, so that a malformed line cannot block the reader).
             raw_command = self.read_buffer[:trailer]
-            command = AtCommand.parse_from(raw_command)
-            logger.debug(f"<<< {raw_command.decode()}")
-
-            # Consume the response bytes.
             self.read_buffer = self.read_buffer[trailer + 1 :]
+            if not raw_command.strip():
+                continue
+            try:
+                command = AtCommand.parse_from(raw_command)
+                logger.debug(f"<<< {raw_command.decode()}")
+            except Exception:
+                logger.warning('Invalid AT command: %s', raw_command.hex())
+                self.send_error()
+                continue
 
             if command.sub_code == AtCommand.SubCode.TEST:
                 handler_name = f'_on_{command.code.lower()}_test'
@@ -1261,7 +1267,12 @@ class AgProtocol(utils.EventEmitter):
                 handler_name = f'_on_{command.code.lower()}'
 
             if handler := getattr(self, handler_name, None):
-                handler(*command.parameters)
+                try:
+                    handler(*command.parameters)
+                except (TypeError, ValueError, KeyError):
+                    # Unexpected number or format of parameters
+                    logger.exception('Error while handling %s', handler_name)
+                    self.send_error()
             else:
                 logger.warning('Handler %s not found', handler_name)
                 self.send_response('ERROR')
